@@ -178,3 +178,144 @@ pub(crate) fn cas_all_contract<T: Atomic + PartialEq>(s: &[Atom<T>], current: T,
         Err(())
     }
 }
+
+// ---------------------------------------------------------------------------------------------
+// Thread-modular rely/guarantee environment (DESIGN.md section 4).
+// One thread is verified against ANY number of other threads: immediately before each atomic
+// access of the verified thread to a word of the registered region the environment may overwrite
+// that word with any value the RELY allows (havocking a location lazily just before it is
+// accessed is equivalent to arbitrary activity of other threads between any two atomic
+// operations of this thread, because this thread observes shared memory only through `Atom`).
+//   RELY      : other threads never change a bit this thread owns (owned bits are set).
+//   GUARANTEE : every write of this thread either claims bits (all changed bits were 0 and become 1:
+//               they become owned) or releases bits it owns (owned bits become 0).
+// Installed with `#[kani::stub]` on the `Atom` methods; the stubs perform the same raw atomic
+// operation the wrapper performs. `try_update` mirrors std's fetch_update loop with one possible
+// interference between the load and the CAS (then the retry runs undisturbed).
+// ---------------------------------------------------------------------------------------------
+pub(crate) mod env {
+    pub const MAXW: usize = 8;
+    pub static mut ON: bool = false;
+    pub static mut BASE: usize = 0;
+    pub static mut NWORDS: usize = 0;
+    pub static mut OWN: [u64; MAXW] = [0; MAXW];
+    /// number of environment writes still allowed (symbolic freeze point for C21)
+    pub static mut BUDGET: usize = 0;
+
+    pub unsafe fn raw_read(addr: usize, size: usize) -> u64 {
+        unsafe {
+            match size {
+                1 => *(addr as *const u8) as u64,
+                2 => *(addr as *const u16) as u64,
+                4 => *(addr as *const u32) as u64,
+                _ => *(addr as *const u64),
+            }
+        }
+    }
+    pub unsafe fn raw_write(addr: usize, size: usize, v: u64) {
+        unsafe {
+            match size {
+                1 => *(addr as *mut u8) = v as u8,
+                2 => *(addr as *mut u16) = v as u16,
+                4 => *(addr as *mut u32) = v as u32,
+                _ => *(addr as *mut u64) = v,
+            }
+        }
+    }
+    /// (word index, bit shift inside the word, value mask) of an access inside the region
+    fn locate(addr: usize, size: usize) -> Option<(usize, u32, u64)> {
+        let (base, n) = unsafe { (BASE, NWORDS) };
+        if unsafe { ON } && addr >= base && addr + size <= base + n * 8 {
+            let off = addr - base;
+            let mask = if size >= 8 { u64::MAX } else { (1u64 << (size * 8)) - 1 };
+            Some((off / 8, ((off % 8) * 8) as u32, mask))
+        } else {
+            None
+        }
+    }
+    /// Environment step on the location about to be accessed.
+    pub fn interfere(addr: usize, size: usize) {
+        if let Some((w, shift, mask)) = locate(addr, size) {
+            unsafe {
+                if BUDGET > 0 && kani::any() {
+                    let v: u64 = kani::any();
+                    let own = (OWN[w] >> shift) & mask;
+                    kani::assume(v & !mask == 0 && v & own == own);
+                    raw_write(addr, size, v);
+                    BUDGET -= 1;
+                }
+            }
+        }
+    }
+    /// Guarantee check + ghost ownership update for a write of this thread.
+    pub fn guarantee(addr: usize, size: usize, old: u64, new: u64) {
+        if let Some((w, shift, mask)) = locate(addr, size) {
+            let diff = (old ^ new) & mask;
+            if diff != 0 {
+                unsafe {
+                    let own = (OWN[w] >> shift) & mask;
+                    let claim = new & diff == diff;
+                    let release = old & diff == diff && own & diff == diff;
+                    kani::assert(claim || release, "C01 guarantee: a write either claims bits that were all free or releases bits this thread owns");
+                    if claim {
+                        OWN[w] |= diff << shift;
+                    } else {
+                        OWN[w] &= !(diff << shift);
+                    }
+                }
+            }
+        }
+    }
+}
+
+impl<T: Atomic> Atom<T> {
+    fn rg_addr(&self) -> usize {
+        self as *const Self as usize
+    }
+    pub(crate) fn load_rg(&self) -> T {
+        env::interfere(self.rg_addr(), core::mem::size_of::<T>());
+        self.0.load().into()
+    }
+    pub(crate) fn store_rg(&self, v: T) {
+        let (a, s) = (self.rg_addr(), core::mem::size_of::<T>());
+        env::interfere(a, s);
+        let old = unsafe { env::raw_read(a, s) };
+        self.0.store(v.into());
+        env::guarantee(a, s, old, unsafe { env::raw_read(a, s) });
+    }
+    pub(crate) fn compare_exchange_rg(&self, current: T, new: T) -> core::result::Result<T, T> {
+        let (a, s) = (self.rg_addr(), core::mem::size_of::<T>());
+        env::interfere(a, s);
+        let old = unsafe { env::raw_read(a, s) };
+        match self.0.compare_exchange(current.into(), new.into()) {
+            Ok(v) => {
+                env::guarantee(a, s, old, unsafe { env::raw_read(a, s) });
+                Ok(v.into())
+            }
+            Err(v) => Err(v.into()),
+        }
+    }
+    pub(crate) fn try_update_rg<F: FnMut(T) -> Option<T>>(&self, mut f: F) -> core::result::Result<T, T> {
+        let (a, s) = (self.rg_addr(), core::mem::size_of::<T>());
+        env::interfere(a, s);
+        let mut prev = self.0.load();
+        let mut first = true;
+        loop {
+            let Some(next) = f(prev.into()) else {
+                return Err(prev.into());
+            };
+            if first {
+                env::interfere(a, s);
+                first = false;
+            }
+            let old = unsafe { env::raw_read(a, s) };
+            match self.0.compare_exchange(prev, next.into()) {
+                Ok(v) => {
+                    env::guarantee(a, s, old, unsafe { env::raw_read(a, s) });
+                    return Ok(v.into());
+                }
+                Err(v) => prev = v,
+            }
+        }
+    }
+}
